@@ -305,7 +305,7 @@ func valuesFor(key string) (good, bad []lv) {
 	case "decode_group":
 		return []lv{{"json", "json"}, {"probe", "probe"}, {"group", "image"}}, []lv{{"unknown", "nope"}}
 	case "expr_file":
-		return []lv{{"ok", "pa.jq"}}, []lv{{"missing", "nofile.jq"}, {"nocompile", "pbad.jq"}, {"dir", "dir"}}
+		return []lv{{"ok", "pa.jq"}, {"format", "pfmt.jq"}}, []lv{{"missing", "nofile.jq"}, {"nocompile", "pbad.jq"}, {"dir", "dir"}}
 	case "show_help":
 		return []lv{{"topic", "formats"}}, []lv{{"unknown-topic", "nope"}}
 	case "include_path":
